@@ -87,7 +87,7 @@ func cutCase(class, what string, blocked bool, obs interface{}) lib.Case {
 
 // ---- generators ---------------------------------------------------------------
 
-var fatalClasses = []string{"ETimeout", "EClosed", "EEOF", "EUnknown"}
+var fatalClasses = []string{"ETimeout", "EClosed", "EEOF", "EUnknown", "ETooBig"}
 var otherClasses = []string{"ECanceled", "EOther"}
 
 // genOps draws a mostly-valid operation sequence; a small abstract state (who is up,
@@ -119,7 +119,7 @@ func genOps(rng *rand.Rand, np, nh, n int, scripted, tcp bool) []opj {
 		if closed {
 			// after the router was closed only sends (and scripted receive events) follow
 			if scripted && x < 40 {
-				ops = append(ops, opj{K: "recverr", C: rng.Intn(conns + 1), E: fatalClasses[rng.Intn(4)]})
+				ops = append(ops, opj{K: "recverr", C: rng.Intn(conns + 1), E: fatalClasses[rng.Intn(len(fatalClasses))]})
 			} else {
 				ops = append(ops, opj{K: "send", P: p, M: msgs(), Buf: buf})
 			}
@@ -151,7 +151,7 @@ func genOps(rng *rand.Rand, np, nh, n int, scripted, tcp bool) []opj {
 			up[p] = true
 		case x < 70:
 			if scripted {
-				e := fatalClasses[rng.Intn(4)]
+				e := fatalClasses[rng.Intn(len(fatalClasses))]
 				if rng.Intn(5) == 0 {
 					e = otherClasses[rng.Intn(2)]
 				}
